@@ -256,8 +256,46 @@ def _insert_propagate(body, names, log):
                 pos = m.end()
                 continue
             raise ExtractionBroken("cannot place VERIF_PROPAGATE after call at: " + body[m.start():m.start() + 50])
-        body = body[:j + 1] + " VERIF_PROPAGATE;" + body[j + 1:]
-        pos = j + 1
+        # is the statement the unbraced body of if/while/for/else?  then brace it so that the propagation stays inside that body
+        b = m.start() - 1
+        d2 = 0
+        unbraced = None
+        while b >= 0:
+            c = body[b]
+            if c == ")":
+                if d2 == 0:
+                    o = b
+                    dd = 0
+                    while o >= 0:
+                        if body[o] == ")":
+                            dd += 1
+                        elif body[o] == "(":
+                            dd -= 1
+                            if dd == 0:
+                                break
+                        o -= 1
+                    if re.search(r"\b(?:if|while|for)\s*$", body[:o]):
+                        unbraced = b + 1
+                        break
+                    b = o - 1
+                    continue
+                d2 += 1
+            elif c == "(":
+                if d2 == 0:
+                    break
+                d2 -= 1
+            elif c in ";{}" and d2 == 0:
+                break
+            elif d2 == 0 and re.search(r"\b(?:else|do)$", body[:b + 1]):
+                unbraced = b + 1
+                break
+            b -= 1
+        if unbraced is not None:
+            body = body[:unbraced] + " {" + body[unbraced:j + 1] + " VERIF_PROPAGATE; }" + body[j + 1:]
+            pos = j + 3
+        else:
+            body = body[:j + 1] + " VERIF_PROPAGATE;" + body[j + 1:]
+            pos = j + 1
         n += 1
     if n:
         log.append("VERIF_PROPAGATE; inserted after %d call(s) to may-throw callees (%s)" % (n, ", ".join(names)))
